@@ -521,3 +521,55 @@ func zzH_C11_index_list(t *zzT) {
 	}
 	t.Reach("end")
 }
+
+// C11.c on ONE tree object across its life: proofs, right witnesses and updates computed on a tree, then
+// further appends (with or without crossing a power of two), then proofs / right witnesses / an update
+// again on the same object: the later answers are those of the grown list (queries are pure: they leave
+// nothing behind that a later answer depends on). n1 leaves, queries, m more leaves, queries.
+// (seed C11-5 memoised the per-layer node counts on the tree object and refreshed them only when the
+// tree gained a layer.)
+//
+//zz:opt loop=200 require=end
+//zz:quick N=5 W=1
+//zz:thorough N=8 W=1 budget=3600s
+func zzH_C11_query_append_query(t *zzT) {
+	N := t.Param("N", 6)
+	n1 := t.Range("n1", 1, N-1)
+	m := t.Range("m", 1, N-n1)
+	vals := zzLeaves(t, n1+m)
+	tree, _ := zzTree(t, vals[:n1])
+	// first round of queries on the small tree
+	q1 := t.Range("q1", 0, n1-1)
+	p1, err := tree.GenerateProof([][]byte{zzRefLeaf(vals[q1])})
+	t.Assert(err == nil && VerifyProof([][]byte{zzRefLeaf(vals[q1])}, p1, zzRefRoot(vals[:n1])), "proof on the tree before the appends verifies")
+	k1 := t.Range("k1", 0, n1)
+	w1, err := tree.GenerateRightWitness(uint64(k1))
+	t.Assert(err == nil && VerifyRightWitness(uint64(k1), zzRefAppendPath(vals[:k1]), w1, zzRefRoot(vals[:n1])), "right witness on the tree before the appends reconstructs the root")
+	// grow the same object
+	for _, v := range vals[n1:] {
+		t.Assert(tree.Append(v) == nil, "Append succeeds")
+	}
+	n := n1 + m
+	root := zzRefRoot(vals)
+	t.Assert(bytes.Equal(tree.Root(), root) && tree.Size() == uint64(n), "root and size after the appends")
+	// second round on the grown tree
+	q2 := t.Range("q2", 0, n-1)
+	p2, err := tree.GenerateProof([][]byte{zzRefLeaf(vals[q2])})
+	t.Assert(err == nil && p2 != nil && p2.Size == uint64(n) && VerifyProof([][]byte{zzRefLeaf(vals[q2])}, p2, root), "proof generated after further appends verifies against the root of the grown list")
+	k2 := t.Range("k2", 0, n)
+	w2, err := tree.GenerateRightWitness(uint64(k2))
+	t.Assert(err == nil && VerifyRightWitness(uint64(k2), zzRefAppendPath(vals[:k2]), w2, root), "right witness generated after further appends reconstructs the root of the grown list")
+	// update of leaf q2 through the tree
+	nv := t.Bytes("newValue", 1)
+	for _, v := range vals {
+		t.Assume(!bytes.Equal(nv, v))
+	}
+	mod := make([][]byte, n)
+	copy(mod, vals)
+	mod[q2] = nv
+	cr, err := CalculateRootFromUpdateData([][]byte{nv}, p2)
+	t.Assert(err == nil && bytes.Equal(cr, zzRefRoot(mod)), "root from update data through a proof generated after further appends = root of the modified list")
+	err = tree.Update(p2.Idxs, [][]byte{nv})
+	t.Assert(err == nil && bytes.Equal(tree.Root(), zzRefRoot(mod)), "Update after proofs and appends yields the root of the modified list")
+	t.Reach("end")
+}
